@@ -1,8 +1,8 @@
 CONSTANTS
   Mode = "trees"
   Tier = "thorough"
-  Parts = {1, 2, 3, 4, 5, 6, 7, 8, 9, 10, 11, 12, 13, 14, 15, 16}
+  Parts = {1, 2, 3, 4, 5, 6, 7, 8, 9, 10}
 INIT Init
 NEXT Next
-INVARIANTS Laws Emit
+INVARIANT LawsAndEmit
 CHECK_DEADLOCK FALSE
